@@ -129,6 +129,7 @@ theorem ensureHC_hc_off (e : Ep) (cs : List Sid)
 
 structure InvE (next : Nat) (eps : List Ep) (cs : List Sid) : Prop where
   ep_lt : ∀ e, e ∈ eps → e.id < next
+  owner_lt : ∀ e, e ∈ eps → e.owner < next
   nodup : eps.Pairwise (fun a b => a.id ≠ b.id)
   gone : ∀ e, e ∈ eps → e.inMap = false → Sid.ep e.id ∈ cs
   hc_sync : ∀ e, e ∈ eps → e.hcOn = !e.disabled
@@ -157,6 +158,7 @@ theorem InvE.eq_of_id {next : Nat} {eps : List Ep} {cs : List Sid} (h : InvE nex
 theorem InvE.weaken {next next' : Nat} {eps : List Ep} {cs cs' : List Sid} (h : InvE next eps cs)
     (hn : next ≤ next') (hc : ∀ s, s ∈ cs → s ∈ cs') : InvE next' eps cs' where
   ep_lt e he := Nat.lt_of_lt_of_le (h.ep_lt e he) hn
+  owner_lt e he := Nat.lt_of_lt_of_le (h.owner_lt e he) hn
   nodup := h.nodup
   gone e he hi := hc _ (h.gone e he hi)
   hc_sync := h.hc_sync
@@ -178,18 +180,25 @@ theorem epMatches_iff (o : Nat) (u : Str) (e : Ep) : epMatches o u e = true ↔ 
   simp [epMatches, and_assoc]
 
 theorem isDropped_iff (o : Nat) (w : List Str) (e : Ep) : isDropped o w e = true ↔ e.owner = o ∧ e.inMap = true ∧ e.url ∉ w := by
-  simp [isDropped, hasStr, and_assoc]
+  unfold isDropped
+  rw [Bool.and_eq_true, Bool.and_eq_true, Bool.not_eq_true', hasStr_false_iff]
+  simp [and_assoc]
 
-theorem addOrUpdate_invE (st : State) (o : Nat) (u : Str) (dis : Bool) (h : InvE st.next st.eps st.cancels) :
+theorem addOrUpdate_invE (st : State) (o : Nat) (u : Str) (dis : Bool) (h : InvE st.next st.eps st.cancels)
+    (ho : o < st.next) :
     InvE (addOrUpdate st o u dis).next (addOrUpdate st o u dis).eps (addOrUpdate st o u dis).cancels := by
   unfold addOrUpdate
   split
   · -- existing endpoint
-    refine ⟨?_, ?_, ?_, ?_, ?_, ?_⟩
+    refine ⟨?_, ?_, ?_, ?_, ?_, ?_, ?_⟩
     · intro e he
       simp only [List.mem_map] at he
       obtain ⟨e0, he0, rfl⟩ := he
       rw [updEp_id]; exact h.ep_lt e0 he0
+    · intro e he
+      simp only [List.mem_map] at he
+      obtain ⟨e0, he0, rfl⟩ := he
+      rw [updEp_owner]; exact h.owner_lt e0 he0
     · exact List.Pairwise.map _ (fun a b hab => by rw [updEp_id, updEp_id]; exact hab) h.nodup
     · intro e he hi
       simp only [List.mem_map] at he
@@ -235,12 +244,17 @@ theorem addOrUpdate_invE (st : State) (o : Nat) (u : Str) (dis : Bool) (h : InvE
         simp only [hm] at hon ⊢
         exact List.mem_append_right _ (h.hc_off e0 he0 hon g hg)
   · -- new endpoint
-    refine ⟨?_, ?_, ?_, ?_, ?_, ?_⟩
+    refine ⟨?_, ?_, ?_, ?_, ?_, ?_, ?_⟩
     · intro e he
       simp only [List.mem_append, List.mem_singleton] at he
       rcases he with he | rfl
       · exact Nat.lt_succ_of_lt (h.ep_lt e he)
       · rw [ensureHC_id]; exact Nat.lt_succ_self _
+    · intro e he
+      simp only [List.mem_append, List.mem_singleton] at he
+      rcases he with he | rfl
+      · exact Nat.lt_succ_of_lt (h.owner_lt e he)
+      · rw [ensureHC_owner]; exact Nat.lt_succ_of_lt ho
     · rw [List.pairwise_append]
       refine ⟨h.nodup, List.pairwise_singleton _ _, ?_⟩
       intro a ha b hb
@@ -275,6 +289,18 @@ theorem addOrUpdate_invE (st : State) (o : Nat) (u : Str) (dis : Bool) (h : InvE
 
 theorem dropEp_id (o : Nat) (w : List Str) (e : Ep) : (dropEp o w e).id = e.id := by
   unfold dropEp; split <;> rfl
+theorem dropEp_owner (o : Nat) (w : List Str) (e : Ep) : (dropEp o w e).owner = e.owner := by
+  unfold dropEp; split <;> rfl
+theorem dropEp_url (o : Nat) (w : List Str) (e : Ep) : (dropEp o w e).url = e.url := by
+  unfold dropEp; split <;> rfl
+theorem dropEp_disabled (o : Nat) (w : List Str) (e : Ep) : (dropEp o w e).disabled = e.disabled := by
+  unfold dropEp; split <;> rfl
+theorem dropEp_healthy (o : Nat) (w : List Str) (e : Ep) : (dropEp o w e).healthy = e.healthy := by
+  unfold dropEp; split <;> rfl
+theorem dropEp_hcOn (o : Nat) (w : List Str) (e : Ep) : (dropEp o w e).hcOn = e.hcOn := by
+  unfold dropEp; split <;> rfl
+theorem dropEp_hcGen (o : Nat) (w : List Str) (e : Ep) : (dropEp o w e).hcGen = e.hcGen := by
+  unfold dropEp; split <;> rfl
 
 /-- the state after the first loop of `syncEndpoints` -/
 def dropPhase (st : State) (o : Nat) (wanted : List Str) : State :=
@@ -288,11 +314,15 @@ theorem syncEndpoints_eq (st : State) (o : Nat) (servers : List (Str × Bool)) :
 theorem dropPhase_invE (st : State) (o : Nat) (w : List Str) (h : InvE st.next st.eps st.cancels) :
     InvE (dropPhase st o w).next (dropPhase st o w).eps (dropPhase st o w).cancels := by
   unfold dropPhase
-  refine ⟨?_, ?_, ?_, ?_, ?_, ?_⟩
+  refine ⟨?_, ?_, ?_, ?_, ?_, ?_, ?_⟩
   · intro e he
     simp only [List.mem_map] at he
     obtain ⟨e0, he0, rfl⟩ := he
     rw [dropEp_id]; exact h.ep_lt e0 he0
+  · intro e he
+    simp only [List.mem_map] at he
+    obtain ⟨e0, he0, rfl⟩ := he
+    rw [dropEp_owner]; exact h.owner_lt e0 he0
   · exact List.Pairwise.map _ (fun a b hab => by rw [dropEp_id, dropEp_id]; exact hab) h.nodup
   · intro e he hi
     simp only [List.mem_map] at he
@@ -308,22 +338,1401 @@ theorem dropPhase_invE (st : State) (o : Nat) (w : List Str) (h : InvE st.next s
   · intro e he
     simp only [List.mem_map] at he
     obtain ⟨e0, he0, rfl⟩ := he
-    unfold dropEp; split <;> exact h.hc_sync e0 he0
+    rw [dropEp_hcOn, dropEp_disabled]; exact h.hc_sync e0 he0
   · intro e he g hg
     simp only [List.mem_map] at he
     obtain ⟨e0, he0, rfl⟩ := he
     apply List.mem_append_right
-    unfold dropEp at hg ⊢; split at hg <;> exact h.hc_old e0 he0 g hg
+    rw [dropEp_hcGen] at hg
+    rw [dropEp_id]
+    exact h.hc_old e0 he0 g hg
   · intro e he hon g hg
     simp only [List.mem_map] at he
     obtain ⟨e0, he0, rfl⟩ := he
     apply List.mem_append_right
-    unfold dropEp at hg hon ⊢; split at hg <;> exact h.hc_off e0 he0 hon g hg
+    rw [dropEp_hcGen] at hg
+    rw [dropEp_hcOn] at hon
+    rw [dropEp_id]
+    exact h.hc_off e0 he0 hon g hg
 
-theorem syncEndpoints_invE (st : State) (o : Nat) (servers : List (Str × Bool)) (h : InvE st.next st.eps st.cancels) :
+theorem addOrUpdate_next_le (st : State) (o : Nat) (u : Str) (dis : Bool) : st.next ≤ (addOrUpdate st o u dis).next := by
+  unfold addOrUpdate; split
+  · exact Nat.le_refl _
+  · exact Nat.le_succ _
+
+theorem syncEndpoints_invE (st : State) (o : Nat) (servers : List (Str × Bool)) (h : InvE st.next st.eps st.cancels)
+    (ho : o < st.next) :
     InvE (syncEndpoints st o servers).next (syncEndpoints st o servers).eps (syncEndpoints st o servers).cancels := by
   rw [syncEndpoints_eq]
-  exact foldl_inv (fun s => InvE s.next s.eps s.cancels) _ (fun s sv hs => addOrUpdate_invE s o sv.1 _ hs) _ _
-    (dropPhase_invE st o _ h)
+  exact (foldl_inv (fun s => InvE s.next s.eps s.cancels ∧ o < s.next) _
+    (fun s (sv : Str × Bool) hs => ⟨addOrUpdate_invE s o sv.1 _ hs.1 hs.2, Nat.lt_of_lt_of_le hs.2 (addOrUpdate_next_le ..)⟩) _ _
+    ⟨dropPhase_invE st o _ h, ho⟩).1
+
+
+/-! ## what `syncEndpoints` does (relation between the state before and after) -/
+
+structure SyncRel (o : Nat) (disf : Str → Bool) (wanted : List Str) (a b : State) : Prop where
+  heap_eq : b.heap = a.heap
+  names_eq : b.names = a.names
+  reqs_eq : b.reqs = a.reqs
+  next_le : a.next ≤ b.next
+  sub : ∀ s, s ∈ a.cancels → s ∈ b.cancels
+  fwd : ∀ e, e ∈ a.eps → ∃ e', e' ∈ b.eps ∧ e'.id = e.id ∧ e'.owner = e.owner ∧ e'.url = e.url ∧ e'.inMap = e.inMap ∧ e'.healthy = e.healthy
+  bwd : ∀ e', e' ∈ b.eps →
+        (∃ e, e ∈ a.eps ∧ e'.id = e.id ∧ e'.owner = e.owner ∧ e'.url = e.url ∧ e'.inMap = e.inMap) ∨
+        (a.next ≤ e'.id ∧ e'.owner = o ∧ e'.url ∈ wanted ∧ e'.inMap = true)
+  newc : ∀ s, s ∈ b.cancels → s ∈ a.cancels ∨ ∃ e', e' ∈ b.eps ∧ e'.owner = o ∧ disf e'.url = true ∧ ∃ g, s = Sid.hc e'.id g
+
+theorem SyncRel.refl (o : Nat) (disf : Str → Bool) (w : List Str) (a : State) : SyncRel o disf w a a where
+  heap_eq := rfl
+  names_eq := rfl
+  reqs_eq := rfl
+  next_le := Nat.le_refl _
+  sub _ h := h
+  fwd e he := ⟨e, he, rfl, rfl, rfl, rfl, rfl⟩
+  bwd e he := Or.inl ⟨e, he, rfl, rfl, rfl, rfl⟩
+  newc _ h := Or.inl h
+
+theorem SyncRel.trans {o : Nat} {disf : Str → Bool} {w : List Str} {a b c : State}
+    (h1 : SyncRel o disf w a b) (h2 : SyncRel o disf w b c) : SyncRel o disf w a c where
+  heap_eq := h2.heap_eq.trans h1.heap_eq
+  names_eq := h2.names_eq.trans h1.names_eq
+  reqs_eq := h2.reqs_eq.trans h1.reqs_eq
+  next_le := Nat.le_trans h1.next_le h2.next_le
+  sub s hs := h2.sub s (h1.sub s hs)
+  fwd e he := by
+    obtain ⟨e1, he1, a1, a2, a3, a4, a5⟩ := h1.fwd e he
+    obtain ⟨e2, he2, b1, b2, b3, b4, b5⟩ := h2.fwd e1 he1
+    exact ⟨e2, he2, b1.trans a1, b2.trans a2, b3.trans a3, b4.trans a4, b5.trans a5⟩
+  bwd e2 he2 := by
+    rcases h2.bwd e2 he2 with ⟨e1, he1, b1, b2, b3, b4⟩ | ⟨b1, b2, b3, b4⟩
+    · rcases h1.bwd e1 he1 with ⟨e, he, a1, a2, a3, a4⟩ | ⟨a1, a2, a3, a4⟩
+      · exact Or.inl ⟨e, he, b1.trans a1, b2.trans a2, b3.trans a3, b4.trans a4⟩
+      · exact Or.inr ⟨by rw [b1]; exact a1, b2.trans a2, by rw [b3]; exact a3, b4.trans a4⟩
+    · exact Or.inr ⟨Nat.le_trans h1.next_le b1, b2, b3, b4⟩
+  newc s hs := by
+    rcases h2.newc s hs with h | h
+    · rcases h1.newc s h with h' | ⟨e1, he1, a1, a2, g, a3⟩
+      · exact Or.inl h'
+      · obtain ⟨e2, he2, b1, b2, b3, _, _⟩ := h2.fwd e1 he1
+        exact Or.inr ⟨e2, he2, b2.trans a1, by rw [b3]; exact a2, g, by rw [b1]; exact a3⟩
+    · exact Or.inr h
+
+theorem addOrUpdate_rel (st : State) (o : Nat) (disf : Str → Bool) (w : List Str) (u : Str) (hu : u ∈ w) :
+    SyncRel o disf w st (addOrUpdate st o u (disf u)) := by
+  unfold addOrUpdate
+  split
+  · refine ⟨rfl, rfl, rfl, Nat.le_refl _, fun s hs => List.mem_append_right _ hs, ?_, ?_, ?_⟩
+    · intro e he
+      exact ⟨updEp o u (disf u) e, List.mem_map.2 ⟨e, he, rfl⟩, updEp_id .., updEp_owner .., updEp_url .., updEp_inMap .., updEp_healthy ..⟩
+    · intro e' he'
+      obtain ⟨e, he, rfl⟩ := List.mem_map.1 he'
+      exact Or.inl ⟨e, he, updEp_id .., updEp_owner .., updEp_url .., updEp_inMap ..⟩
+    · intro s hs
+      rcases List.mem_append.1 hs with h | h
+      · right
+        obtain ⟨e, he, hse⟩ := List.mem_flatMap.1 h
+        unfold updCancels at hse
+        split at hse
+        · rename_i hm
+          obtain ⟨hd, _, hsg⟩ := ensureHC_cancels _ s hse
+          obtain ⟨ho, _, hurl⟩ := (epMatches_iff o u e).1 hm
+          refine ⟨updEp o u (disf u) e, List.mem_map.2 ⟨e, he, rfl⟩, by rw [updEp_owner]; exact ho, ?_, e.hcGen - 1, ?_⟩
+          · rw [updEp_url, hurl]; exact hd
+          · rw [updEp_id]; exact hsg
+        · cases hse
+      · exact Or.inl h
+  · refine ⟨rfl, rfl, rfl, Nat.le_succ _, fun s hs => List.mem_append_right _ hs, ?_, ?_, ?_⟩
+    · intro e he
+      exact ⟨e, List.mem_append_left _ he, rfl, rfl, rfl, rfl, rfl⟩
+    · intro e' he'
+      rcases List.mem_append.1 he' with h | h
+      · exact Or.inl ⟨e', h, rfl, rfl, rfl, rfl⟩
+      · simp only [List.mem_singleton] at h
+        subst h
+        exact Or.inr ⟨by rw [ensureHC_id]; exact Nat.le_refl _, by rw [ensureHC_owner], by rw [ensureHC_url]; exact hu, by rw [ensureHC_inMap]⟩
+    · intro s hs
+      rcases List.mem_append.1 hs with h | h
+      · exfalso
+        have := ensureHC_cancels _ s h
+        simp at this
+      · exact Or.inl h
+
+theorem syncFold_rel (o : Nat) (disf : Str → Bool) (w : List Str) :
+    ∀ (l : List Str) (st : State), (∀ u, u ∈ l → u ∈ w) →
+      SyncRel o disf w st (l.foldl (fun s u => addOrUpdate s o u (disf u)) st) := by
+  intro l
+  induction l with
+  | nil => intro st _; exact SyncRel.refl ..
+  | cons u us ih =>
+    intro st hl
+    exact SyncRel.trans (addOrUpdate_rel st o disf w u (hl u (List.mem_cons_self ..)))
+      (ih _ (fun v hv => hl v (List.mem_cons_of_mem _ hv)))
+
+theorem syncEndpoints_rel (st : State) (o : Nat) (servers : List (Str × Bool)) :
+    SyncRel o (disabledOf servers) (servers.map (·.1)) (dropPhase st o (servers.map (·.1))) (syncEndpoints st o servers) := by
+  rw [syncEndpoints_eq]
+  have := syncFold_rel o (disabledOf servers) (servers.map (·.1)) (servers.map (·.1)) (dropPhase st o (servers.map (·.1))) (fun _ h => h)
+  rw [List.foldl_map] at this
+  exact this
+
+
+/-! ## the manager's name map: the loops of `DeleteForServerNames` and `AddOrUpdateForServerNames` -/
+
+theorem nameOf_congr {a b : State} (h : b.heap = a.heap) (o : Nat) : nameOf b o = nameOf a o := by
+  unfold nameOf; rw [h]
+
+/-- one iteration of `DeleteForServerNames`: either the key maps to a cluster of that name, then the key is deleted and
+    that cluster stopped, or nothing happens -/
+theorem delStep_spec (cname : Str) (s : State) (sn : Str) :
+    (∃ o', s.names (lower sn) = some o' ∧ nameOf s o' = some cname ∧
+        (delStep cname s sn).names (lower sn) = none ∧ (delStep cname s sn).cancels = Sid.cl o' :: s.cancels ∧
+        (∀ k, k ≠ lower sn → (delStep cname s sn).names k = s.names k) ∧
+        (delStep cname s sn).heap = s.heap ∧ (delStep cname s sn).eps = s.eps ∧ (delStep cname s sn).reqs = s.reqs ∧
+        (delStep cname s sn).next = s.next) ∨
+    ((∀ o', s.names (lower sn) = some o' → nameOf s o' ≠ some cname) ∧ delStep cname s sn = s) := by
+  unfold delStep Model.Lifecycle.get
+  cases h : s.names (lower sn) with
+  | none => right; exact ⟨fun o' ho => (by cases ho), rfl⟩
+  | some o' =>
+    by_cases hn : nameOf s o' = some cname
+    · left
+      refine ⟨o', rfl, hn, ?_⟩
+      simp only [hn, if_true]
+      unfold doDelete
+      simp only [h]
+      refine ⟨?_, ?_, ?_, ?_⟩
+      · simp
+      · simp
+      · intro k hk; simp [hk]
+      · simp
+    · right
+      refine ⟨fun o'' ho => (by cases ho; exact hn), ?_⟩
+      simp [hn]
+
+structure DelRel (cname : Str) (L : List Str) (s f : State) : Prop where
+  heap_eq : f.heap = s.heap
+  eps_eq : f.eps = s.eps
+  reqs_eq : f.reqs = s.reqs
+  next_eq : f.next = s.next
+  sub : ∀ x, x ∈ s.cancels → x ∈ f.cancels
+  shrink : ∀ k o', f.names k = some o' → s.names k = some o'
+  keep : ∀ k o', s.names k = some o' → f.names k = some o' ∨
+      (f.names k = none ∧ nameOf s o' = some cname ∧ (∃ sn, sn ∈ L ∧ lower sn = k) ∧ Sid.cl o' ∈ f.cancels)
+  kill : ∀ k o', s.names k = some o' → nameOf s o' = some cname → (∃ sn, sn ∈ L ∧ lower sn = k) →
+      f.names k = none ∧ Sid.cl o' ∈ f.cancels
+  newc : ∀ x, x ∈ f.cancels → x ∈ s.cancels ∨
+      ∃ k o', s.names k = some o' ∧ nameOf s o' = some cname ∧ (∃ sn, sn ∈ L ∧ lower sn = k) ∧ x = Sid.cl o'
+
+theorem delFold_rel (cname : Str) : ∀ (L : List Str) (s : State), DelRel cname L s (L.foldl (delStep cname) s) := by
+  intro L
+  induction L with
+  | nil =>
+    intro s
+    exact ⟨rfl, rfl, rfl, rfl, fun _ h => h, fun _ _ h => h, fun _ _ h => Or.inl h,
+      fun _ _ _ _ ⟨_, h, _⟩ => (by cases h), fun _ h => Or.inl h⟩
+  | cons sn xs ih =>
+    intro s
+    simp only [List.foldl_cons]
+    have IH := ih (delStep cname s sn)
+    rcases delStep_spec cname s sn with ⟨o0, hk0, hn0, hnone, hcs, hoth, hheap, heps, hreqs, hnext⟩ | ⟨hno, heq⟩
+    · have hname : ∀ o, nameOf (delStep cname s sn) o = nameOf s o := nameOf_congr hheap
+      have hnoneF : (xs.foldl (delStep cname) (delStep cname s sn)).names (lower sn) = none := by
+        cases hf : (xs.foldl (delStep cname) (delStep cname s sn)).names (lower sn) with
+        | none => rfl
+        | some o' => have := IH.shrink _ _ hf; rw [hnone] at this; cases this
+      have hcl0 : Sid.cl o0 ∈ (xs.foldl (delStep cname) (delStep cname s sn)).cancels :=
+        IH.sub _ (by rw [hcs]; exact List.mem_cons_self ..)
+      refine ⟨IH.heap_eq.trans hheap, IH.eps_eq.trans heps, IH.reqs_eq.trans hreqs, IH.next_eq.trans hnext, ?_, ?_, ?_, ?_, ?_⟩
+      · intro x hx; exact IH.sub x (by rw [hcs]; exact List.mem_cons_of_mem _ hx)
+      · intro k o' hf
+        have h1 := IH.shrink k o' hf
+        by_cases hk : k = lower sn
+        · subst hk; rw [hnone] at h1; cases h1
+        · rw [hoth k hk] at h1; exact h1
+      · intro k o' hs
+        by_cases hk : k = lower sn
+        · subst hk
+          rw [hk0] at hs; cases hs
+          exact Or.inr ⟨hnoneF, hn0, ⟨sn, List.mem_cons_self .., rfl⟩, hcl0⟩
+        · have hs1 : (delStep cname s sn).names k = some o' := by rw [hoth k hk]; exact hs
+          rcases IH.keep k o' hs1 with h | ⟨h1, h2, ⟨sn', h3, h4⟩, h5⟩
+          · exact Or.inl h
+          · exact Or.inr ⟨h1, by rw [← hname]; exact h2, ⟨sn', List.mem_cons_of_mem _ h3, h4⟩, h5⟩
+      · intro k o' hs hn ⟨sn', hsn', hl⟩
+        by_cases hk : k = lower sn
+        · subst hk
+          rw [hk0] at hs; cases hs
+          exact ⟨hnoneF, hcl0⟩
+        · have hs1 : (delStep cname s sn).names k = some o' := by rw [hoth k hk]; exact hs
+          have hsn'' : sn' ∈ xs := by
+            rcases List.mem_cons.1 hsn' with h | h
+            · subst h; exact absurd hl.symm hk
+            · exact h
+          exact IH.kill k o' hs1 (by rw [hname]; exact hn) ⟨sn', hsn'', hl⟩
+      · intro x hx
+        rcases IH.newc x hx with h | ⟨k, o', h1, h2, ⟨sn', h3, h4⟩, h5⟩
+        · rw [hcs] at h
+          rcases List.mem_cons.1 h with h | h
+          · exact Or.inr ⟨lower sn, o0, hk0, hn0, ⟨sn, List.mem_cons_self .., rfl⟩, h⟩
+          · exact Or.inl h
+        · have hk : k ≠ lower sn := by
+            intro hk; subst hk; rw [hnone] at h1; cases h1
+          exact Or.inr ⟨k, o', by rw [← hoth k hk]; exact h1, by rw [← hname]; exact h2, ⟨sn', List.mem_cons_of_mem _ h3, h4⟩, h5⟩
+    · rw [heq] at IH ⊢
+      refine ⟨IH.heap_eq, IH.eps_eq, IH.reqs_eq, IH.next_eq, IH.sub, IH.shrink, ?_, ?_, ?_⟩
+      · intro k o' hs
+        rcases IH.keep k o' hs with h | ⟨h1, h2, ⟨sn', h3, h4⟩, h5⟩
+        · exact Or.inl h
+        · exact Or.inr ⟨h1, h2, ⟨sn', List.mem_cons_of_mem _ h3, h4⟩, h5⟩
+      · intro k o' hs hn ⟨sn', hsn', hl⟩
+        rcases List.mem_cons.1 hsn' with h | h
+        · subst h; subst hl
+          exact absurd hn (hno o' hs)
+        · exact IH.kill k o' hs hn ⟨sn', h, hl⟩
+      · intro x hx
+        rcases IH.newc x hx with h | ⟨k, o', h1, h2, ⟨sn', h3, h4⟩, h5⟩
+        · exact Or.inl h
+        · exact Or.inr ⟨k, o', h1, h2, ⟨sn', List.mem_cons_of_mem _ h3, h4⟩, h5⟩
+
+
+/-- one iteration of the first loop of `AddOrUpdateForServerNames` -/
+theorem dropNameStep_spec (cname : Str) (new : List Str) (s : State) (on : Str) :
+    (on ∉ new ∧ ∃ o', s.names (lower on) = some o' ∧ nameOf s o' = some cname ∧
+        (dropNameStep cname new s on).names (lower on) = none ∧ (dropNameStep cname new s on).cancels = s.cancels ∧
+        (∀ k, k ≠ lower on → (dropNameStep cname new s on).names k = s.names k) ∧
+        (dropNameStep cname new s on).heap = s.heap ∧ (dropNameStep cname new s on).eps = s.eps ∧
+        (dropNameStep cname new s on).reqs = s.reqs ∧ (dropNameStep cname new s on).next = s.next) ∨
+    ((on ∈ new ∨ ∀ o', s.names (lower on) = some o' → nameOf s o' ≠ some cname) ∧ dropNameStep cname new s on = s) := by
+  unfold dropNameStep
+  by_cases hin : on ∈ new
+  · right
+    have : hasStr new on = true := (hasStr_iff _ _).2 hin
+    exact ⟨Or.inl hin, by simp [this]⟩
+  · have hf : hasStr new on = false := (hasStr_false_iff _ _).2 hin
+    simp only [hf]
+    unfold Model.Lifecycle.get
+    cases h : s.names (lower on) with
+    | none => right; exact ⟨Or.inr (fun o' ho => (by cases ho)), by simp⟩
+    | some o' =>
+      by_cases hn : nameOf s o' = some cname
+      · left
+        refine ⟨hin, o', rfl, hn, ?_⟩
+        simp only [hn, if_true]
+        unfold doDelete
+        simp only [h]
+        refine ⟨?_, ?_, ?_, ?_⟩
+        · simp
+        · simp
+        · intro k hk; simp [hk]
+        · simp
+      · right
+        refine ⟨Or.inr (fun o'' ho => (by cases ho; exact hn)), ?_⟩
+        simp [hn]
+
+structure DropRel (cname : Str) (new L : List Str) (s g : State) : Prop where
+  heap_eq : g.heap = s.heap
+  eps_eq : g.eps = s.eps
+  reqs_eq : g.reqs = s.reqs
+  next_eq : g.next = s.next
+  cancels_eq : g.cancels = s.cancels
+  shrink : ∀ k o', g.names k = some o' → s.names k = some o'
+  keep : ∀ k o', s.names k = some o' → g.names k = some o' ∨
+      (g.names k = none ∧ nameOf s o' = some cname ∧ ∃ on, on ∈ L ∧ lower on = k ∧ on ∉ new)
+  kill : ∀ k o', s.names k = some o' → nameOf s o' = some cname → (∃ on, on ∈ L ∧ lower on = k ∧ on ∉ new) →
+      g.names k = none
+
+theorem dropFold_rel (cname : Str) (new : List Str) :
+    ∀ (L : List Str) (s : State), DropRel cname new L s (L.foldl (dropNameStep cname new) s) := by
+  intro L
+  induction L with
+  | nil =>
+    intro s
+    exact ⟨rfl, rfl, rfl, rfl, rfl, fun _ _ h => h, fun _ _ h => Or.inl h, fun _ _ _ _ ⟨_, h, _⟩ => (by cases h)⟩
+  | cons on xs ih =>
+    intro s
+    simp only [List.foldl_cons]
+    have IH := ih (dropNameStep cname new s on)
+    rcases dropNameStep_spec cname new s on with ⟨hnin, o0, hk0, hn0, hnone, hcs, hoth, hheap, heps, hreqs, hnext⟩ | ⟨hno, heq⟩
+    · have hname : ∀ o, nameOf (dropNameStep cname new s on) o = nameOf s o := nameOf_congr hheap
+      have hnoneF : (xs.foldl (dropNameStep cname new) (dropNameStep cname new s on)).names (lower on) = none := by
+        cases hf : (xs.foldl (dropNameStep cname new) (dropNameStep cname new s on)).names (lower on) with
+        | none => rfl
+        | some o' => have := IH.shrink _ _ hf; rw [hnone] at this; cases this
+      refine ⟨IH.heap_eq.trans hheap, IH.eps_eq.trans heps, IH.reqs_eq.trans hreqs, IH.next_eq.trans hnext,
+        IH.cancels_eq.trans hcs, ?_, ?_, ?_⟩
+      · intro k o' hf
+        have h1 := IH.shrink k o' hf
+        by_cases hk : k = lower on
+        · subst hk; rw [hnone] at h1; cases h1
+        · rw [hoth k hk] at h1; exact h1
+      · intro k o' hs
+        by_cases hk : k = lower on
+        · subst hk
+          rw [hk0] at hs; cases hs
+          exact Or.inr ⟨hnoneF, hn0, on, List.mem_cons_self .., rfl, hnin⟩
+        · have hs1 : (dropNameStep cname new s on).names k = some o' := by rw [hoth k hk]; exact hs
+          rcases IH.keep k o' hs1 with h | ⟨h1, h2, on', h3, h4, h5⟩
+          · exact Or.inl h
+          · exact Or.inr ⟨h1, by rw [← hname]; exact h2, on', List.mem_cons_of_mem _ h3, h4, h5⟩
+      · intro k o' hs hn ⟨on', hon', hl, hnn⟩
+        by_cases hk : k = lower on
+        · subst hk; exact hnoneF
+        · have hs1 : (dropNameStep cname new s on).names k = some o' := by rw [hoth k hk]; exact hs
+          have hon'' : on' ∈ xs := by
+            rcases List.mem_cons.1 hon' with h | h
+            · subst h; exact absurd hl.symm hk
+            · exact h
+          exact IH.kill k o' hs1 (by rw [hname]; exact hn) ⟨on', hon'', hl, hnn⟩
+    · rw [heq] at IH ⊢
+      refine ⟨IH.heap_eq, IH.eps_eq, IH.reqs_eq, IH.next_eq, IH.cancels_eq, IH.shrink, ?_, ?_⟩
+      · intro k o' hs
+        rcases IH.keep k o' hs with h | ⟨h1, h2, on', h3, h4, h5⟩
+        · exact Or.inl h
+        · exact Or.inr ⟨h1, h2, on', List.mem_cons_of_mem _ h3, h4, h5⟩
+      · intro k o' hs hn ⟨on', hon', hl, hnn⟩
+        rcases List.mem_cons.1 hon' with h | h
+        · subst h; subst hl
+          rcases hno with h' | h'
+          · exact absurd h' hnn
+          · exact absurd hn (h' o' hs)
+        · exact IH.kill k o' hs hn ⟨on', h, hl, hnn⟩
+
+/-- the second loop of `AddOrUpdateForServerNames` -/
+structure AddRel (old : List Str) (o : Nat) (L : List Str) (g h : State) : Prop where
+  heap_eq : h.heap = g.heap
+  eps_eq : h.eps = g.eps
+  reqs_eq : h.reqs = g.reqs
+  next_eq : h.next = g.next
+  cancels_eq : h.cancels = g.cancels
+  added : ∀ k, (∃ nn, nn ∈ L ∧ nn ∉ old ∧ lower nn = k) → h.names k = some o
+  other : ∀ k, (¬ ∃ nn, nn ∈ L ∧ nn ∉ old ∧ lower nn = k) → h.names k = g.names k
+
+theorem addFold_rel (old : List Str) (o : Nat) :
+    ∀ (L : List Str) (g : State), AddRel old o L g (L.foldl (addNameStep old o) g) := by
+  intro L
+  induction L with
+  | nil =>
+    intro g
+    exact ⟨rfl, rfl, rfl, rfl, rfl, fun _ ⟨_, h, _⟩ => (by cases h), fun _ _ => rfl⟩
+  | cons nn xs ih =>
+    intro g
+    simp only [List.foldl_cons]
+    have IH := ih (addNameStep old o g nn)
+    by_cases hin : nn ∈ old
+    · have hs : addNameStep old o g nn = g := by
+        unfold addNameStep; simp [(hasStr_iff _ _).2 hin]
+      rw [hs] at IH ⊢
+      refine ⟨IH.heap_eq, IH.eps_eq, IH.reqs_eq, IH.next_eq, IH.cancels_eq, ?_, ?_⟩
+      · intro k ⟨n', hn', hno, hl⟩
+        rcases List.mem_cons.1 hn' with h | h
+        · subst h; exact absurd hin hno
+        · exact IH.added k ⟨n', h, hno, hl⟩
+      · intro k hk
+        exact IH.other k (fun ⟨n', hn', hno, hl⟩ => hk ⟨n', List.mem_cons_of_mem _ hn', hno, hl⟩)
+    · have hs : addNameStep old o g nn = addWithKey g nn o := by
+        unfold addNameStep; simp [(hasStr_false_iff _ _).2 hin]
+      rw [hs] at IH ⊢
+      refine ⟨IH.heap_eq, IH.eps_eq, IH.reqs_eq, IH.next_eq, IH.cancels_eq, ?_, ?_⟩
+      · intro k ⟨n', hn', hno, hl⟩
+        by_cases hx : ∃ n'', n'' ∈ xs ∧ n'' ∉ old ∧ lower n'' = k
+        · exact IH.added k hx
+        · rw [IH.other k hx]
+          rcases List.mem_cons.1 hn' with h | h
+          · subst h; subst hl; simp [addWithKey]
+          · exact absurd ⟨n', h, hno, hl⟩ hx
+      · intro k hk
+        have hx : ¬ ∃ n'', n'' ∈ xs ∧ n'' ∉ old ∧ lower n'' = k :=
+          fun ⟨n', hn', hno, hl⟩ => hk ⟨n', List.mem_cons_of_mem _ hn', hno, hl⟩
+        rw [IH.other k hx]
+        have : k ≠ lower nn := fun h => hk ⟨nn, List.mem_cons_self .., hin, h.symm⟩
+        simp [addWithKey, this]
+
+
+/-! ## `syncEndpoints`, summary -/
+
+theorem dropEp_inMap (o : Nat) (w : List Str) (e : Ep) : (dropEp o w e).inMap = (e.inMap && !isDropped o w e) := by
+  unfold dropEp
+  by_cases h : isDropped o w e = true
+  · have := ((isDropped_iff o w e).1 h).2.1
+    simp [h]
+  · simp [h]
+
+section
+variable (st : State) (o : Nat) (servers : List (Str × Bool))
+
+theorem syncEndpoints_heap : (syncEndpoints st o servers).heap = st.heap := (syncEndpoints_rel st o servers).heap_eq
+theorem syncEndpoints_names : (syncEndpoints st o servers).names = st.names := (syncEndpoints_rel st o servers).names_eq
+theorem syncEndpoints_reqs : (syncEndpoints st o servers).reqs = st.reqs := (syncEndpoints_rel st o servers).reqs_eq
+theorem syncEndpoints_next_le : st.next ≤ (syncEndpoints st o servers).next := (syncEndpoints_rel st o servers).next_le
+
+theorem syncEndpoints_sub (s : Sid) (h : s ∈ st.cancels) : s ∈ (syncEndpoints st o servers).cancels :=
+  (syncEndpoints_rel st o servers).sub s (List.mem_append_right _ h)
+
+/-- what `syncEndpoints` cancels: the endpoints it drops, and the health-check loop of endpoints the new server list disables -/
+theorem syncEndpoints_newc (s : Sid) (h : s ∈ (syncEndpoints st o servers).cancels) :
+    s ∈ st.cancels ∨ (∃ e, e ∈ st.eps ∧ isDropped o (servers.map (·.1)) e = true ∧ s = Sid.ep e.id) ∨
+    (∃ e', e' ∈ (syncEndpoints st o servers).eps ∧ e'.owner = o ∧ disabledOf servers e'.url = true ∧ ∃ g, s = Sid.hc e'.id g) := by
+  rcases (syncEndpoints_rel st o servers).newc s h with h1 | h1
+  · rcases List.mem_append.1 h1 with h2 | h2
+    · obtain ⟨e, he, rfl⟩ := List.mem_map.1 h2
+      obtain ⟨he1, he2⟩ := List.mem_filter.1 he
+      exact Or.inr (Or.inl ⟨e, he1, he2, rfl⟩)
+    · exact Or.inl h2
+  · exact Or.inr (Or.inr h1)
+
+theorem syncEndpoints_fwd (e : Ep) (he : e ∈ st.eps) :
+    ∃ e', e' ∈ (syncEndpoints st o servers).eps ∧ e'.id = e.id ∧ e'.owner = e.owner ∧ e'.url = e.url ∧
+      e'.healthy = e.healthy ∧ e'.inMap = (e.inMap && !isDropped o (servers.map (·.1)) e) := by
+  have hd : dropEp o (servers.map (·.1)) e ∈ (dropPhase st o (servers.map (·.1))).eps := List.mem_map.2 ⟨e, he, rfl⟩
+  obtain ⟨e', he', h1, h2, h3, h4, h5⟩ := (syncEndpoints_rel st o servers).fwd _ hd
+  exact ⟨e', he', by rw [h1, dropEp_id], by rw [h2, dropEp_owner], by rw [h3, dropEp_url], by rw [h5, dropEp_healthy],
+    by rw [h4, dropEp_inMap]⟩
+
+theorem syncEndpoints_bwd (e' : Ep) (he' : e' ∈ (syncEndpoints st o servers).eps) :
+    (∃ e, e ∈ st.eps ∧ e'.id = e.id ∧ e'.owner = e.owner ∧ e'.url = e.url ∧
+        e'.inMap = (e.inMap && !isDropped o (servers.map (·.1)) e)) ∨
+    (st.next ≤ e'.id ∧ e'.owner = o ∧ e'.url ∈ servers.map (·.1) ∧ e'.inMap = true) := by
+  rcases (syncEndpoints_rel st o servers).bwd e' he' with ⟨d, hd, h1, h2, h3, h4⟩ | h
+  · obtain ⟨e, he, rfl⟩ := List.mem_map.1 hd
+    exact Or.inl ⟨e, he, by rw [h1, dropEp_id], by rw [h2, dropEp_owner], by rw [h3, dropEp_url], by rw [h4, dropEp_inMap]⟩
+  · exact Or.inr h
+
+theorem syncEndpoints_cl (x : Nat) : Sid.cl x ∈ (syncEndpoints st o servers).cancels ↔ Sid.cl x ∈ st.cancels := by
+  constructor
+  · intro h
+    rcases syncEndpoints_newc st o servers _ h with h | ⟨_, _, _, h⟩ | ⟨_, _, _, _, _, h⟩
+    · exact h
+    · cases h
+    · cases h
+  · exact syncEndpoints_sub st o servers _
+
+theorem syncEndpoints_rq (x : Nat) : Sid.rq x ∈ (syncEndpoints st o servers).cancels ↔ Sid.rq x ∈ st.cancels := by
+  constructor
+  · intro h
+    rcases syncEndpoints_newc st o servers _ h with h | ⟨_, _, _, h⟩ | ⟨_, _, _, _, _, h⟩
+    · exact h
+    · cases h
+    · cases h
+  · exact syncEndpoints_sub st o servers _
+
+end
+
+/-! ## the name-side invariant -/
+
+structure InvN (next : Nat) (heap : Nat → Option Cluster) (names : Str → Option Nat) (cs : List Sid) : Prop where
+  heap_lt : ∀ o c, heap o = some c → o < next
+  cl_lt : ∀ o, Sid.cl o ∈ cs → o < next
+  names_ok : ∀ k o, names k = some o → ∃ c, heap o = some c ∧ k ∈ c.serverNames ∧ names c.name = some o ∧ Sid.cl o ∉ cs
+  no_leak : ∀ o c, heap o = some c → names c.name = some o ∨ Sid.cl o ∈ cs
+  srv_lower : ∀ o c, heap o = some c → ∀ n, n ∈ c.serverNames → lower n = n
+
+theorem InvN.unique {next : Nat} {heap : Nat → Option Cluster} {names : Str → Option Nat} {cs : List Sid}
+    (h : InvN next heap names cs) {k1 k2 : Str} {o1 o2 : Nat} {c1 c2 : Cluster}
+    (h1 : names k1 = some o1) (h2 : names k2 = some o2) (hc1 : heap o1 = some c1) (hc2 : heap o2 = some c2)
+    (hn : c1.name = c2.name) : o1 = o2 := by
+  obtain ⟨d1, hd1, _, ho1, _⟩ := h.names_ok k1 o1 h1
+  obtain ⟨d2, hd2, _, ho2, _⟩ := h.names_ok k2 o2 h2
+  rw [hc1] at hd1; cases hd1
+  rw [hc2] at hd2; cases hd2
+  rw [hn, ho2] at ho1
+  cases ho1; rfl
+
+theorem deleteFor_cases (st : State) (cname : Str) :
+    deleteForServerNames st cname = st ∨
+    ∃ o c, st.names (lower cname) = some o ∧ st.heap o = some c ∧
+      deleteForServerNames st cname = c.serverNames.foldl (delStep cname) st := by
+  unfold deleteForServerNames Model.Lifecycle.get
+  cases h : st.names (lower cname) with
+  | none => exact Or.inl rfl
+  | some o =>
+    cases hc : st.heap o with
+    | none => left; simp [hc]
+    | some c => right; exact ⟨o, c, rfl, hc, by simp [hc]⟩
+
+theorem nameOf_some {st : State} {o : Nat} {c : Cluster} (h : st.heap o = some c) : nameOf st o = some c.name := by
+  unfold nameOf; rw [h]; rfl
+
+theorem nameOf_eq_some {st : State} {o : Nat} {n : Str} (h : nameOf st o = some n) : ∃ c, st.heap o = some c ∧ c.name = n := by
+  unfold nameOf at h
+  cases hc : st.heap o with
+  | none => rw [hc] at h; cases h
+  | some c => rw [hc] at h; exact ⟨c, rfl, by cases h; rfl⟩
+
+/-- the keys `DeleteForServerNames` can delete all belong to the cluster registered under its own name `cname` -/
+theorem victim_is_owner {st : State} (hI : InvN st.next st.heap st.names st.cancels) {cname : Str} {o : Nat} {c : Cluster}
+    (ho : st.names cname = some o) (hc : st.heap o = some c) {k : Str} {o2 : Nat}
+    (hk : st.names k = some o2) (hn : nameOf st o2 = some cname) :
+    o2 = o ∧ c.name = cname ∧ k ∈ c.serverNames ∧ lower k = k := by
+  obtain ⟨c2, hc2, hname2⟩ := nameOf_eq_some hn
+  obtain ⟨d2, hd2, hkin, hown, _⟩ := hI.names_ok k o2 hk
+  rw [hc2] at hd2; cases hd2
+  rw [hname2] at hown
+  rw [ho] at hown; cases hown
+  rw [hc] at hc2; cases hc2
+  exact ⟨rfl, hname2, hkin, hI.srv_lower _ _ hc _ hkin⟩
+
+theorem deleteFor_invN (st : State) (cname : Str) (hl : lower cname = cname)
+    (hI : InvN st.next st.heap st.names st.cancels) :
+    InvN (deleteForServerNames st cname).next (deleteForServerNames st cname).heap
+      (deleteForServerNames st cname).names (deleteForServerNames st cname).cancels := by
+  rcases deleteFor_cases st cname with h | ⟨o, c, ho, hc, h⟩
+  · rw [h]; exact hI
+  · rw [h]
+    rw [hl] at ho
+    have R := delFold_rel cname c.serverNames st
+    generalize c.serverNames.foldl (delStep cname) st = f at R
+    have killed : ∀ k o2, st.names k = some o2 → nameOf st o2 = some cname → f.names k = none := by
+      intro k o2 hk hn
+      obtain ⟨_, _, hkin, hlk⟩ := victim_is_owner hI ho hc hk hn
+      exact (R.kill k o2 hk hn ⟨k, hkin, hlk⟩).1
+    have survive : ∀ k o2, f.names k = some o2 → ∀ c2, st.heap o2 = some c2 → st.names c2.name = some o2 →
+        f.names c2.name = some o2 := by
+      intro k o2 hf c2 hc2 hown
+      rcases R.keep c2.name o2 hown with h1 | ⟨_, hn, _, _⟩
+      · exact h1
+      · have := killed k o2 (R.shrink k o2 hf) hn
+        rw [hf] at this; cases this
+    refine ⟨?_, ?_, ?_, ?_, ?_⟩
+    · intro o2 c2 h2; rw [R.next_eq]; rw [R.heap_eq] at h2; exact hI.heap_lt o2 c2 h2
+    · intro o2 h2
+      rw [R.next_eq]
+      rcases R.newc _ h2 with h3 | ⟨k, o', hk, _, _, heq⟩
+      · exact hI.cl_lt o2 h3
+      · cases heq
+        obtain ⟨c2, hc2, _⟩ := hI.names_ok k o2 hk
+        exact hI.heap_lt o2 c2 hc2
+    · intro k o2 hf
+      have hk := R.shrink k o2 hf
+      obtain ⟨c2, hc2, hkin, hown, hncl⟩ := hI.names_ok k o2 hk
+      refine ⟨c2, by rw [R.heap_eq]; exact hc2, hkin, survive k o2 hf c2 hc2 hown, ?_⟩
+      intro hcl
+      rcases R.newc _ hcl with h3 | ⟨k', o', hk', hn', _, heq⟩
+      · exact hncl h3
+      · cases heq
+        have := killed k o2 hk hn'
+        rw [hf] at this; cases this
+    · intro o2 c2 h2
+      rw [R.heap_eq] at h2
+      rcases hI.no_leak o2 c2 h2 with h3 | h3
+      · rcases R.keep c2.name o2 h3 with h4 | ⟨_, _, _, h4⟩
+        · exact Or.inl h4
+        · exact Or.inr h4
+      · exact Or.inr (R.sub _ h3)
+    · intro o2 c2 h2; rw [R.heap_eq] at h2; exact hI.srv_lower o2 c2 h2
+
+
+/-! ## `AddOrUpdateForServerNames` -/
+
+theorem aou_spec (s : State) (old : List Str) (o : Nat) (c' : Cluster) (h : s.heap o = some c') :
+    (old = c'.serverNames ∧ addOrUpdateForServerNames s old o = s) ∨
+    (old ≠ c'.serverNames ∧ ∃ g, DropRel c'.name c'.serverNames old s g ∧
+        AddRel old o c'.serverNames g (addOrUpdateForServerNames s old o)) := by
+  unfold addOrUpdateForServerNames
+  simp only [h]
+  by_cases he : old = c'.serverNames
+  · left; exact ⟨he, by simp [he]⟩
+  · right
+    refine ⟨he, _, dropFold_rel c'.name c'.serverNames old s, ?_⟩
+    simp only [he, if_false]
+    exact addFold_rel old o c'.serverNames _
+
+theorem aou_frame (s : State) (old : List Str) (o : Nat) :
+    (addOrUpdateForServerNames s old o).heap = s.heap ∧ (addOrUpdateForServerNames s old o).eps = s.eps ∧
+    (addOrUpdateForServerNames s old o).reqs = s.reqs ∧ (addOrUpdateForServerNames s old o).next = s.next ∧
+    (addOrUpdateForServerNames s old o).cancels = s.cancels := by
+  cases hc : s.heap o with
+  | none => unfold addOrUpdateForServerNames; simp [hc]
+  | some c' =>
+    rcases aou_spec s old o c' hc with ⟨_, h⟩ | ⟨_, g, G, A⟩
+    · rw [h]; exact ⟨rfl, rfl, rfl, rfl, rfl⟩
+    · exact ⟨A.heap_eq.trans G.heap_eq, A.eps_eq.trans G.eps_eq, A.reqs_eq.trans G.reqs_eq, A.next_eq.trans G.next_eq,
+        A.cancels_eq.trans G.cancels_eq⟩
+
+theorem upd_same {α : Type} (f : Nat → Option α) (k : Nat) (v : α) : upd f k v k = some v := by simp [upd]
+theorem upd_other {α : Type} (f : Nat → Option α) (k : Nat) (v : α) (x : Nat) (h : x ≠ k) : upd f k v x = f x := by simp [upd, h]
+
+theorem aou_invN (s0 s2 : State) (o : Nat) (c' : Cluster) (old : List Str)
+    (hI : InvN s0.next s0.heap s0.names s0.cancels)
+    (hheap : s2.heap = upd s0.heap o c') (hnames : s2.names = s0.names)
+    (hnext : s0.next ≤ s2.next) (hon : o < s2.next)
+    (hcl : ∀ x, Sid.cl x ∈ s2.cancels ↔ Sid.cl x ∈ s0.cancels)
+    (hlow : ∀ k, k ∈ c'.serverNames → lower k = k)
+    (hold_low : ∀ k, k ∈ old → lower k = k)
+    (hU1 : ∀ k, s0.names k = some o → k ∈ old)
+    (hU3 : c'.name ∈ old → s0.names c'.name = some o)
+    (hU6 : Sid.cl o ∉ s0.cancels)
+    (hfree : old ≠ c'.serverNames → ∀ nn, nn ∈ c'.serverNames → nn ∉ old → s0.names nn = none)
+    (hvict : ∀ k o2, s0.names k = some o2 → nameOf s2 o2 = some c'.name → o2 = o) :
+    InvN (addOrUpdateForServerNames s2 old o).next (addOrUpdateForServerNames s2 old o).heap
+      (addOrUpdateForServerNames s2 old o).names (addOrUpdateForServerNames s2 old o).cancels := by
+  have hs2o : s2.heap o = some c' := by rw [hheap]; exact upd_same ..
+  have hs2x : ∀ o2, o2 ≠ o → s2.heap o2 = s0.heap o2 := fun o2 h => by rw [hheap]; exact upd_other _ _ _ _ h
+  have hcn_new : c'.name ∈ c'.serverNames := List.mem_cons_self ..
+  have hcn_low : lower c'.name = c'.name := hlow _ hcn_new
+  have hname_o : nameOf s2 o = some c'.name := nameOf_some hs2o
+  obtain ⟨fh, _, _, fn, fc⟩ := aou_frame s2 old o
+  have hclo : Sid.cl o ∉ s2.cancels := fun h => hU6 ((hcl o).1 h)
+  -- the parts that do not depend on the names
+  have p_heap_lt : ∀ o2 c2, s2.heap o2 = some c2 → o2 < s2.next := by
+    intro o2 c2 h2
+    by_cases ho : o2 = o
+    · subst ho; exact hon
+    · rw [hs2x o2 ho] at h2; exact Nat.lt_of_lt_of_le (hI.heap_lt o2 c2 h2) hnext
+  have p_cl_lt : ∀ o2, Sid.cl o2 ∈ s2.cancels → o2 < s2.next :=
+    fun o2 h2 => Nat.lt_of_lt_of_le (hI.cl_lt o2 ((hcl o2).1 h2)) hnext
+  have p_low : ∀ o2 c2, s2.heap o2 = some c2 → ∀ n, n ∈ c2.serverNames → lower n = n := by
+    intro o2 c2 h2
+    by_cases ho : o2 = o
+    · subst ho; rw [hs2o] at h2; cases h2; exact hlow
+    · rw [hs2x o2 ho] at h2; exact hI.srv_lower o2 c2 h2
+  rcases aou_spec s2 old o c' hs2o with ⟨heq, hr⟩ | ⟨hne, g, G, A⟩
+  · rw [hr]
+    have hown : s2.names c'.name = some o := by rw [hnames]; exact hU3 (by rw [heq]; exact hcn_new)
+    refine ⟨p_heap_lt, p_cl_lt, ?_, ?_, p_low⟩
+    · intro k o2 hk
+      rw [hnames] at hk
+      obtain ⟨c2, hc2, hkin, hown2, hncl⟩ := hI.names_ok k o2 hk
+      by_cases ho : o2 = o
+      · subst ho
+        exact ⟨c', hs2o, by rw [← heq]; exact hU1 k hk, hown, hclo⟩
+      · exact ⟨c2, by rw [hs2x o2 ho]; exact hc2, hkin, by rw [hnames]; exact hown2, fun h => hncl ((hcl o2).1 h)⟩
+    · intro o2 c2 h2
+      by_cases ho : o2 = o
+      · subst ho; rw [hs2o] at h2; cases h2; exact Or.inl hown
+      · rw [hs2x o2 ho] at h2
+        rcases hI.no_leak o2 c2 h2 with h3 | h3
+        · exact Or.inl (by rw [hnames]; exact h3)
+        · exact Or.inr ((hcl o2).2 h3)
+  · rw [fh, fn, fc]
+    have notAdded_of_old : ∀ k, k ∈ old → ¬ ∃ nn, nn ∈ c'.serverNames ∧ nn ∉ old ∧ lower nn = k := by
+      intro k hk ⟨nn, h1, h2, h3⟩
+      rw [hlow nn h1] at h3; subst h3; exact h2 hk
+    have F1 : (addOrUpdateForServerNames s2 old o).names c'.name = some o := by
+      by_cases hin : c'.name ∈ old
+      · rw [A.other _ (notAdded_of_old _ hin)]
+        have hs : s2.names c'.name = some o := by rw [hnames]; exact hU3 hin
+        rcases G.keep _ _ hs with h | ⟨_, _, on, h1, h2, h3⟩
+        · exact h
+        · rw [hold_low on h1] at h2; subst h2; exact absurd hcn_new h3
+      · exact A.added _ ⟨c'.name, hcn_new, hin, hcn_low⟩
+    have F2 : ∀ o2, o2 ≠ o → ∀ c2, s0.heap o2 = some c2 → s0.names c2.name = some o2 →
+        (addOrUpdateForServerNames s2 old o).names c2.name = some o2 := by
+      intro o2 ho c2 hc2 hown2
+      have hna : ¬ ∃ nn, nn ∈ c'.serverNames ∧ nn ∉ old ∧ lower nn = c2.name := by
+        intro ⟨nn, h1, h2, h3⟩
+        rw [hlow nn h1] at h3; subst h3
+        rw [hfree hne _ h1 h2] at hown2; cases hown2
+      rw [A.other _ hna]
+      rcases G.keep c2.name o2 (by rw [hnames]; exact hown2) with h | ⟨_, hn, _⟩
+      · exact h
+      · exact absurd (hvict _ _ hown2 hn) ho
+    refine ⟨p_heap_lt, p_cl_lt, ?_, ?_, p_low⟩
+    · intro k o2 hk
+      by_cases hadd : ∃ nn, nn ∈ c'.serverNames ∧ nn ∉ old ∧ lower nn = k
+      · rw [A.added k hadd] at hk; cases hk
+        obtain ⟨nn, h1, _, h3⟩ := hadd
+        rw [hlow nn h1] at h3; subst h3
+        exact ⟨c', hs2o, h1, F1, hclo⟩
+      · rw [A.other k hadd] at hk
+        have hk2 := G.shrink k o2 hk
+        have hk0 : s0.names k = some o2 := by rw [← hnames]; exact hk2
+        obtain ⟨c2, hc2, hkin, hown2, hncl⟩ := hI.names_ok k o2 hk0
+        by_cases ho : o2 = o
+        · subst ho
+          refine ⟨c', hs2o, ?_, F1, hclo⟩
+          by_cases hknew : k ∈ c'.serverNames
+          · exact hknew
+          · have hkold := hU1 k hk0
+            have := G.kill k o2 hk2 hname_o ⟨k, hkold, hold_low k hkold, hknew⟩
+            rw [hk] at this; cases this
+        · exact ⟨c2, by rw [hs2x o2 ho]; exact hc2, hkin, F2 o2 ho c2 hc2 hown2, fun h => hncl ((hcl o2).1 h)⟩
+    · intro o2 c2 h2
+      by_cases ho : o2 = o
+      · subst ho; rw [hs2o] at h2; cases h2; exact Or.inl F1
+      · rw [hs2x o2 ho] at h2
+        rcases hI.no_leak o2 c2 h2 with h3 | h3
+        · exact Or.inl (F2 o2 ho c2 h2 h3)
+        · exact Or.inr ((hcl o2).2 h3)
+
+
+/-! ## `syncUpstreamCluster` -/
+
+theorem conflicts_false {st : State} {cname : Str} {old new : List Str} (h : conflicts st cname old new = false)
+    (hne : old ≠ new) :
+    (∀ n, n ∈ new → foreign st cname n = false) ∧ (∀ n, n ∈ old → n ∉ new → foreign st cname n = false) := by
+  unfold conflicts at h
+  simp only [hne, if_false] at h
+  rw [Bool.or_eq_false_iff] at h
+  constructor
+  · intro n hn
+    have h1 := h.1
+    rw [List.any_eq_false] at h1
+    simpa using h1 n hn
+  · intro n hn hnn
+    have h2 := h.2
+    rw [List.any_eq_false] at h2
+    have := h2 n hn
+    simpa [(hasStr_false_iff _ _).2 hnn] using this
+
+theorem foreign_false {st : State} {cname n : Str} (h : foreign st cname n = false) (hl : lower n = n) {o2 : Nat}
+    (hk : st.names n = some o2) : nameOf st o2 = some cname := by
+  unfold foreign Model.Lifecycle.get at h
+  rw [hl, hk] at h
+  simpa using h
+
+/-- `NewEmptyClusterInfo`: the state in which the bootstrap `Sync` runs -/
+def bootState (st : State) (sp : Spec) : State :=
+  { st with next := st.next + 1, heap := upd st.heap st.next { name := lower sp.name, aliases := sp.aliases.map lower } }
+
+/-- the state in which `syncEndpoints` of an existing cluster runs (secureServing already stored) -/
+def syncState (st : State) (sp : Spec) (o : Nat) (c : Cluster) : State :=
+  { st with heap := upd st.heap o { c with aliases := sp.aliases.map lower } }
+
+/-- the three ways `syncUpstreamCluster` can go for an object the lister has -/
+theorem applySpec_cases (st : State) (sp : Spec) :
+    applySpec st sp = st ∨
+    (st.names (lower sp.name) = none ∧ conflicts st (lower sp.name) [] (lower sp.name :: sp.aliases.map lower) = false ∧
+      applySpec st sp = addOrUpdateForServerNames (syncEndpoints (bootState st sp) st.next sp.servers) [] st.next) ∨
+    (∃ o c, st.names (lower sp.name) = some o ∧ st.heap o = some c ∧ c.name = lower sp.name ∧
+      conflicts st (lower sp.name) c.serverNames (lower sp.name :: sp.aliases.map lower) = false ∧
+      applySpec st sp = addOrUpdateForServerNames (syncEndpoints (syncState st sp o c) o sp.servers) c.serverNames o) := by
+  unfold bootState syncState
+  unfold applySpec Model.Lifecycle.get
+  simp only [lower_idem]
+  cases hk : st.names (lower sp.name) with
+  | none =>
+    simp only
+    by_cases hc : conflicts st (lower sp.name) [] (lower sp.name :: sp.aliases.map lower) = true
+    · left; simp [hc]
+    · right; left
+      have hc' : conflicts st (lower sp.name) [] (lower sp.name :: sp.aliases.map lower) = false := by simpa using hc
+      refine ⟨?_, hc', ?_⟩
+      · trivial
+      · simp [hc']
+  | some o =>
+    simp only
+    cases hh : st.heap o with
+    | none =>
+      left
+      simp only
+      split <;> rfl
+    | some c =>
+      simp only
+      by_cases hc : conflicts st (lower sp.name) c.serverNames (lower sp.name :: sp.aliases.map lower) = true
+      · left; simp [hc]
+      · have hc' : conflicts st (lower sp.name) c.serverNames (lower sp.name :: sp.aliases.map lower) = false := by simpa using hc
+        by_cases hn : c.name = lower sp.name
+        · right; right
+          exact ⟨o, c, rfl, hh, hn, hc', by simp [hc', hn]⟩
+        · left; simp [hc', hn]
+
+theorem lower_new_idem (name : Str) (aliases : List Str) :
+    ∀ k, k ∈ (lower name :: aliases.map lower) → lower k = k := by
+  intro k hk
+  rcases List.mem_cons.1 hk with h | h
+  · subst h; exact lower_idem _
+  · obtain ⟨a, _, rfl⟩ := List.mem_map.1 h
+    exact lower_idem _
+
+theorem applySpec_invN (st : State) (sp : Spec) (hI : InvN st.next st.heap st.names st.cancels) :
+    InvN (applySpec st sp).next (applySpec st sp).heap (applySpec st sp).names (applySpec st sp).cancels := by
+  rcases applySpec_cases st sp with h | ⟨hk, hconf, h⟩ | ⟨o, c, hk, hc, hcn, hconf, h⟩
+  · rw [h]; exact hI
+  · -- bootstrap
+    rw [h]
+    have hnone : ∀ o2, nameOf st o2 = some (lower sp.name) → ∀ k, st.names k = some o2 → False := by
+      intro o2 hn k hk2
+      obtain ⟨c2, hc2, hname2⟩ := nameOf_eq_some hn
+      obtain ⟨d2, hd2, _, hown, _⟩ := hI.names_ok k o2 hk2
+      rw [hc2] at hd2; cases hd2
+      rw [hname2, hk] at hown; cases hown
+    have hle : st.next + 1 ≤ (syncEndpoints (bootState st sp) st.next sp.servers).next :=
+      syncEndpoints_next_le (bootState st sp) st.next sp.servers
+    apply aou_invN st _ st.next { name := lower sp.name, aliases := sp.aliases.map lower } []  hI
+    · rw [syncEndpoints_heap]; rfl
+    · rw [syncEndpoints_names]; rfl
+    · exact Nat.le_trans (Nat.le_succ _) hle
+    · exact Nat.lt_of_lt_of_le (Nat.lt_succ_self _) hle
+    · intro x; exact syncEndpoints_cl ..
+    · exact lower_new_idem sp.name sp.aliases
+    · intro k hk2; cases hk2
+    · intro k hk2
+      obtain ⟨c2, hc2, _⟩ := hI.names_ok k _ hk2
+      exact absurd (hI.heap_lt _ _ hc2) (Nat.lt_irrefl _)
+    · intro h2; cases h2
+    · intro h2; exact absurd (hI.cl_lt _ h2) (Nat.lt_irrefl _)
+    · intro hne nn hnn _
+      cases hkn : st.names nn with
+      | none => rfl
+      | some o2 =>
+        exfalso
+        have hf := (conflicts_false hconf hne).1 nn hnn
+        exact hnone o2 (foreign_false hf (lower_new_idem sp.name sp.aliases nn hnn) hkn) nn hkn
+    · intro k o2 hk2 hn
+      by_cases ho : o2 = st.next
+      · exact ho
+      · exfalso
+        have : nameOf st o2 = some (lower sp.name) := by
+          unfold nameOf at hn ⊢
+          rw [syncEndpoints_heap] at hn
+          simpa [bootState, upd, ho] using hn
+        exact hnone o2 this k hk2
+  · -- sync of an existing cluster
+    rw [h]
+    have hcname : ({ c with aliases := sp.aliases.map lower } : Cluster).name = lower sp.name := hcn
+    have hle : st.next ≤ (syncEndpoints (syncState st sp o c) o sp.servers).next :=
+      syncEndpoints_next_le (syncState st sp o c) o sp.servers
+    apply aou_invN st _ o { c with aliases := sp.aliases.map lower } c.serverNames hI
+    · rw [syncEndpoints_heap]; rfl
+    · rw [syncEndpoints_names]; rfl
+    · exact hle
+    · exact Nat.lt_of_lt_of_le (hI.heap_lt o c hc) hle
+    · intro x; exact syncEndpoints_cl ..
+    · have := lower_new_idem sp.name sp.aliases
+      intro k hk2
+      apply this
+      unfold Cluster.serverNames at hk2
+      rw [hcname] at hk2; exact hk2
+    · exact hI.srv_lower o c hc
+    · intro k hk2
+      obtain ⟨c2, hc2, hkin, _⟩ := hI.names_ok k o hk2
+      rw [hc] at hc2; cases hc2; exact hkin
+    · intro _; rw [hcname]; exact hk
+    · obtain ⟨_, _, _, _, hncl⟩ := hI.names_ok _ o hk
+      exact hncl
+    · intro hne nn hnn hnold
+      cases hkn : st.names nn with
+      | none => rfl
+      | some o2 =>
+        exfalso
+        have hnn' : nn ∈ (lower sp.name :: sp.aliases.map lower) := by
+          unfold Cluster.serverNames at hnn; rw [hcname] at hnn; exact hnn
+        have hne' : c.serverNames ≠ (lower sp.name :: sp.aliases.map lower) := by
+          intro he; apply hne; rw [he]; unfold Cluster.serverNames; rw [hcname]
+        have hf := (conflicts_false hconf hne').1 nn hnn'
+        have hn := foreign_false hf (lower_new_idem sp.name sp.aliases nn hnn') hkn
+        obtain ⟨_, _, hkin, _⟩ := victim_is_owner hI hk hc hkn hn
+        exact hnold hkin
+    · intro k o2 hk2 hn
+      by_cases ho : o2 = o
+      · exact ho
+      · have : nameOf st o2 = some (lower sp.name) := by
+          unfold nameOf at hn ⊢
+          rw [syncEndpoints_heap] at hn
+          rw [hcname] at hn
+          simpa [syncState, upd, ho] using hn
+        exact (victim_is_owner hI hk hc hk2 this).1
+
+
+/-! ## requests -/
+
+structure InvR (reqs : Nat → Option Phase) (eps : List Ep) (cs : List Sid) : Prop where
+  req_ep : ∀ r eid o, (reqs r = some (Phase.proxying eid o) ∨ reqs r = some (Phase.finished eid o)) →
+      ∃ e, e ∈ eps ∧ e.id = eid ∧ e.owner = o
+  req_fin : ∀ r eid o, reqs r = some (Phase.finished eid o) → Sid.rq r ∈ cs
+
+theorem InvR.mono {reqs : Nat → Option Phase} {eps eps' : List Ep} {cs cs' : List Sid} (h : InvR reqs eps cs)
+    (he : ∀ e, e ∈ eps → ∃ e', e' ∈ eps' ∧ e'.id = e.id ∧ e'.owner = e.owner)
+    (hc : ∀ s, s ∈ cs → s ∈ cs') : InvR reqs eps' cs' where
+  req_ep r eid o hr := by
+    obtain ⟨e, he1, he2, he3⟩ := h.req_ep r eid o hr
+    obtain ⟨e', h1, h2, h3⟩ := he e he1
+    exact ⟨e', h1, h2.trans he2, h3.trans he3⟩
+  req_fin r eid o hr := hc _ (h.req_fin r eid o hr)
+
+theorem InvN.cancels_congr {next : Nat} {heap : Nat → Option Cluster} {names : Str → Option Nat} {cs cs' : List Sid}
+    (h : InvN next heap names cs) (hc : ∀ x, Sid.cl x ∈ cs' ↔ Sid.cl x ∈ cs) : InvN next heap names cs' where
+  heap_lt := h.heap_lt
+  cl_lt o ho := h.cl_lt o ((hc o).1 ho)
+  names_ok k o hk := by
+    obtain ⟨c, h1, h2, h3, h4⟩ := h.names_ok k o hk
+    exact ⟨c, h1, h2, h3, fun hx => h4 ((hc o).1 hx)⟩
+  no_leak o c ho := by
+    rcases h.no_leak o c ho with h1 | h1
+    · exact Or.inl h1
+    · exact Or.inr ((hc o).2 h1)
+  srv_lower := h.srv_lower
+
+theorem InvN.next_le {next next' : Nat} {heap : Nat → Option Cluster} {names : Str → Option Nat} {cs : List Sid}
+    (h : InvN next heap names cs) (hn : next ≤ next') : InvN next' heap names cs where
+  heap_lt o c ho := Nat.lt_of_lt_of_le (h.heap_lt o c ho) hn
+  cl_lt o ho := Nat.lt_of_lt_of_le (h.cl_lt o ho) hn
+  names_ok := h.names_ok
+  no_leak := h.no_leak
+  srv_lower := h.srv_lower
+
+/-! ## the invariant of every reachable state -/
+
+structure Inv (st : State) : Prop where
+  e : InvE st.next st.eps st.cancels
+  n : InvN st.next st.heap st.names st.cancels
+  r : InvR st.reqs st.eps st.cancels
+  o : ∀ e, e ∈ st.eps → ∃ c, st.heap e.owner = some c
+
+theorem init_inv : Inv init := by
+  refine ⟨⟨?_, ?_, List.Pairwise.nil, ?_, ?_, ?_, ?_⟩, ⟨?_, ?_, ?_, ?_, ?_⟩, ⟨?_, ?_⟩, ?_⟩
+  · intro e h; cases h
+  · intro e h; cases h
+  · intro e h; cases h
+  · intro e h; cases h
+  · intro e h; cases h
+  · intro e h; cases h
+  · intro o c h; cases h
+  · intro o h; cases h
+  · intro k o h; cases h
+  · intro o c h; cases h
+  · intro o c h; cases h
+  · intro r eid o h; rcases h with h | h <;> cases h
+  · intro r eid o h; cases h
+  · intro e h; cases h
+
+theorem applySpec_eps_cancels (st : State) (sp : Spec) (hN : InvN st.next st.heap st.names st.cancels) :
+    applySpec st sp = st ∨
+    ∃ s1 o, s1.eps = st.eps ∧ s1.cancels = st.cancels ∧ s1.reqs = st.reqs ∧ s1.names = st.names ∧ st.next ≤ s1.next ∧
+      o < s1.next ∧ (st.names (lower sp.name) = some o ∨ (st.names (lower sp.name) = none ∧ o = st.next)) ∧
+      (applySpec st sp).eps = (syncEndpoints s1 o sp.servers).eps ∧
+      (applySpec st sp).cancels = (syncEndpoints s1 o sp.servers).cancels ∧
+      (applySpec st sp).next = (syncEndpoints s1 o sp.servers).next ∧
+      (applySpec st sp).reqs = st.reqs ∧
+      (∃ c', (applySpec st sp).heap = upd st.heap o c') := by
+  rcases applySpec_cases st sp with h | ⟨hk, _, h⟩ | ⟨o, c, hk, hc, _, _, h⟩
+  · exact Or.inl h
+  · right
+    obtain ⟨f1, f2, f3, f4, f5⟩ := aou_frame (syncEndpoints (bootState st sp) st.next sp.servers) [] st.next
+    exact ⟨bootState st sp, st.next, rfl, rfl, rfl, rfl, Nat.le_succ _, Nat.lt_succ_self _, Or.inr ⟨hk, rfl⟩,
+      by rw [h, f2], by rw [h, f5], by rw [h, f4], by rw [h, f3, syncEndpoints_reqs]; rfl,
+      ⟨_, by rw [h, f1, syncEndpoints_heap]; rfl⟩⟩
+  · right
+    obtain ⟨f1, f2, f3, f4, f5⟩ := aou_frame (syncEndpoints (syncState st sp o c) o sp.servers) c.serverNames o
+    exact ⟨syncState st sp o c, o, rfl, rfl, rfl, rfl, Nat.le_refl _, hN.heap_lt o c hc, Or.inl hk,
+      by rw [h, f2], by rw [h, f5], by rw [h, f4], by rw [h, f3, syncEndpoints_reqs]; rfl,
+      ⟨_, by rw [h, f1, syncEndpoints_heap]; rfl⟩⟩
+
+theorem applySpec_inv (st : State) (sp : Spec) (hI : Inv st) : Inv (applySpec st sp) := by
+  refine ⟨?_, applySpec_invN st sp hI.n, ?_, ?_⟩
+  rotate_left 2
+  · rcases applySpec_eps_cancels st sp hI.n with h | ⟨s1, o, h1, _, _, _, _, _, _, h6, _, _, _, c', h10⟩
+    · rw [h]; exact hI.o
+    · rw [h6, h10]
+      intro e' he'
+      rcases syncEndpoints_bwd s1 o sp.servers e' he' with ⟨e, he, _, hown, _⟩ | ⟨_, hown, _⟩
+      · rw [h1] at he
+        obtain ⟨c0, hc0⟩ := hI.o e he
+        rw [hown]
+        by_cases hoo : e.owner = o
+        · rw [hoo]; exact ⟨c', upd_same ..⟩
+        · exact ⟨c0, by rw [upd_other _ _ _ _ hoo]; exact hc0⟩
+      · rw [hown]; exact ⟨c', upd_same ..⟩
+  · rcases applySpec_eps_cancels st sp hI.n with h | ⟨s1, o, h1, h2, _, _, h5, ho, _, h6, h7, h8, _⟩
+    · rw [h]; exact hI.e
+    · rw [h6, h7, h8]
+      apply syncEndpoints_invE _ _ _ _ ho
+      rw [h1, h2]
+      exact hI.e.weaken h5 (fun _ h => h)
+  · rcases applySpec_eps_cancels st sp hI.n with h | ⟨s1, o, h1, h2, _, _, _, _, _, h6, h7, _, h9, _⟩
+    · rw [h]; exact hI.r
+    · rw [h6, h7, h9]
+      apply hI.r.mono
+      · intro e he
+        obtain ⟨e', a, b, c, _⟩ := syncEndpoints_fwd s1 o sp.servers e (by rw [h1]; exact he)
+        exact ⟨e', a, b, c⟩
+      · intro s hs
+        exact syncEndpoints_sub s1 o sp.servers s (by rw [h2]; exact hs)
+
+theorem deleteSpec_frame (st : State) (name : Str) :
+    (deleteSpec st name).heap = st.heap ∧ (deleteSpec st name).eps = st.eps ∧ (deleteSpec st name).reqs = st.reqs ∧
+    (deleteSpec st name).next = st.next ∧ (∀ x, x ∈ st.cancels → x ∈ (deleteSpec st name).cancels) := by
+  unfold deleteSpec
+  rcases deleteFor_cases st (lower name) with h | ⟨o, c, _, _, h⟩
+  · rw [h]; exact ⟨rfl, rfl, rfl, rfl, fun _ h => h⟩
+  · rw [h]
+    have R := delFold_rel (lower name) c.serverNames st
+    exact ⟨R.heap_eq, R.eps_eq, R.reqs_eq, R.next_eq, R.sub⟩
+
+theorem deleteSpec_inv (st : State) (name : Str) (hI : Inv st) : Inv (deleteSpec st name) := by
+  obtain ⟨f1, f2, f3, f4, f5⟩ := deleteSpec_frame st name
+  refine ⟨?_, deleteFor_invN st (lower name) (lower_idem name) hI.n, ?_, ?_⟩
+  · rw [f2, f4]; exact hI.e.weaken (Nat.le_refl _) f5
+  · rw [f2, f3]; exact hI.r.mono (fun e he => ⟨e, he, rfl, rfl⟩) f5
+  · rw [f1, f2]; exact hI.o
+
+theorem reqStart_inv (st : State) (r : Nat) (host : Str) (hI : Inv st) : Inv (reqStart st r host) := by
+  unfold reqStart
+  cases hr : st.reqs r with
+  | some p => simp only; exact hI
+  | none =>
+    simp only
+    cases hg : Model.Lifecycle.get st host with
+    | none =>
+      refine ⟨hI.e, hI.n, ⟨?_, ?_⟩, hI.o⟩
+      · intro r' eid o h
+        by_cases hrr : r' = r
+        · subst hrr; simp [upd] at h
+        · simp only [upd, hrr, if_false] at h; exact hI.r.req_ep r' eid o h
+      · intro r' eid o h
+        by_cases hrr : r' = r
+        · subst hrr; simp [upd] at h
+        · simp only [upd, hrr, if_false] at h; exact hI.r.req_fin r' eid o h
+    | some o' =>
+      refine ⟨hI.e, hI.n, ⟨?_, ?_⟩, hI.o⟩
+      · intro r' eid o h
+        by_cases hrr : r' = r
+        · subst hrr; simp [upd] at h
+        · simp only [upd, hrr, if_false] at h; exact hI.r.req_ep r' eid o h
+      · intro r' eid o h
+        by_cases hrr : r' = r
+        · subst hrr; simp [upd] at h
+        · simp only [upd, hrr, if_false] at h; exact hI.r.req_fin r' eid o h
+
+theorem mem_pickable {st : State} {o : Nat} {e : Ep} (h : e ∈ pickable st o) :
+    e ∈ st.eps ∧ e.owner = o ∧ e.inMap = true ∧ e.disabled = false ∧ e.healthy = true := by
+  unfold pickable at h
+  obtain ⟨h1, h2⟩ := List.mem_filter.1 h
+  simp only [Bool.and_eq_true, beq_iff_eq, Bool.not_eq_true'] at h2
+  exact ⟨h1, h2.1.1.1, h2.1.1.2, h2.1.2, h2.2⟩
+
+theorem reqPick_inv (st : State) (r : Nat) (choice : Nat) (hI : Inv st) : Inv (reqPick st r choice) := by
+  unfold reqPick
+  split
+  · rename_i o hr
+    split
+    · refine ⟨hI.e, hI.n, ⟨?_, ?_⟩, hI.o⟩
+      · intro r' eid o' h
+        by_cases hrr : r' = r
+        · subst hrr; simp [upd] at h
+        · simp only [upd, hrr, if_false] at h; exact hI.r.req_ep r' eid o' h
+      · intro r' eid o' h
+        by_cases hrr : r' = r
+        · subst hrr; simp [upd] at h
+        · simp only [upd, hrr, if_false] at h; exact hI.r.req_fin r' eid o' h
+    · rename_i e hpick
+      have hmem : e ∈ pickable st o := List.mem_of_getElem? hpick
+      obtain ⟨he, ho, _⟩ := mem_pickable hmem
+      refine ⟨hI.e, hI.n, ⟨?_, ?_⟩, hI.o⟩
+      · intro r' eid o' h
+        by_cases hrr : r' = r
+        · subst hrr
+          simp only [upd, if_true] at h
+          rcases h with h | h
+          · cases h; exact ⟨e, he, rfl, ho⟩
+          · cases h
+        · simp only [upd, hrr, if_false] at h; exact hI.r.req_ep r' eid o' h
+      · intro r' eid o' h
+        by_cases hrr : r' = r
+        · subst hrr; simp [upd] at h
+        · simp only [upd, hrr, if_false] at h; exact hI.r.req_fin r' eid o' h
+  · exact hI
+
+theorem reqFinish_inv (st : State) (r : Nat) (hI : Inv st) : Inv (reqFinish st r) := by
+  unfold reqFinish
+  split
+  · rename_i e o hr
+    refine ⟨hI.e.weaken (Nat.le_refl _) (fun _ h => List.mem_cons_of_mem _ h), ?_, ⟨?_, ?_⟩, hI.o⟩
+    · exact hI.n.cancels_congr (fun x => by simp)
+    · intro r' eid o' h
+      by_cases hrr : r' = r
+      · subst hrr
+        simp only [upd, if_true] at h
+        rcases h with h | h
+        · cases h
+        · cases h; exact hI.r.req_ep r' _ _ (Or.inl hr)
+      · simp only [upd, hrr, if_false] at h; exact hI.r.req_ep r' eid o' h
+    · intro r' eid o' h
+      by_cases hrr : r' = r
+      · subst hrr; exact List.mem_cons_self ..
+      · simp only [upd, hrr, if_false] at h; exact List.mem_cons_of_mem _ (hI.r.req_fin r' eid o' h)
+  · exact hI
+
+/-- a probe only changes `healthy` -/
+def probeEp (cs : List Sid) (u : Str) (ok : Bool) (e : Ep) : Ep :=
+  if e.url == u && hcLive cs e then { e with healthy := ok } else e
+
+theorem health_eq (st : State) (u : Str) (ok : Bool) : health st u ok = { st with eps := st.eps.map (probeEp st.cancels u ok) } := rfl
+
+theorem probeEp_fields (cs : List Sid) (u : Str) (ok : Bool) (e : Ep) :
+    (probeEp cs u ok e).id = e.id ∧ (probeEp cs u ok e).owner = e.owner ∧ (probeEp cs u ok e).url = e.url ∧
+    (probeEp cs u ok e).inMap = e.inMap ∧ (probeEp cs u ok e).disabled = e.disabled ∧
+    (probeEp cs u ok e).hcOn = e.hcOn ∧ (probeEp cs u ok e).hcGen = e.hcGen := by
+  unfold probeEp; split <;> exact ⟨rfl, rfl, rfl, rfl, rfl, rfl, rfl⟩
+
+theorem health_inv (st : State) (u : Str) (ok : Bool) (hI : Inv st) : Inv (health st u ok) := by
+  rw [health_eq]
+  refine ⟨⟨?_, ?_, ?_, ?_, ?_, ?_, ?_⟩, hI.n, ?_, ?_⟩
+  rotate_left 8
+  · intro e he
+    obtain ⟨e0, he0, rfl⟩ := List.mem_map.1 he
+    rw [(probeEp_fields ..).2.1]; exact hI.o e0 he0
+  · intro e he
+    obtain ⟨e0, he0, rfl⟩ := List.mem_map.1 he
+    rw [(probeEp_fields ..).1]; exact hI.e.ep_lt e0 he0
+  · intro e he
+    obtain ⟨e0, he0, rfl⟩ := List.mem_map.1 he
+    rw [(probeEp_fields ..).2.1]; exact hI.e.owner_lt e0 he0
+  · exact List.Pairwise.map _ (fun a b hab => by rw [(probeEp_fields ..).1, (probeEp_fields ..).1]; exact hab) hI.e.nodup
+  · intro e he hi
+    obtain ⟨e0, he0, rfl⟩ := List.mem_map.1 he
+    obtain ⟨f1, _, _, f4, _⟩ := probeEp_fields st.cancels u ok e0
+    rw [f4] at hi; rw [f1]; exact hI.e.gone e0 he0 hi
+  · intro e he
+    obtain ⟨e0, he0, rfl⟩ := List.mem_map.1 he
+    obtain ⟨_, _, _, _, f5, f6, _⟩ := probeEp_fields st.cancels u ok e0
+    rw [f5, f6]; exact hI.e.hc_sync e0 he0
+  · intro e he g hg
+    obtain ⟨e0, he0, rfl⟩ := List.mem_map.1 he
+    obtain ⟨f1, _, _, _, _, _, f7⟩ := probeEp_fields st.cancels u ok e0
+    rw [f7] at hg; rw [f1]; exact hI.e.hc_old e0 he0 g hg
+  · intro e he hon g hg
+    obtain ⟨e0, he0, rfl⟩ := List.mem_map.1 he
+    obtain ⟨f1, _, _, _, _, f6, f7⟩ := probeEp_fields st.cancels u ok e0
+    rw [f7] at hg; rw [f6] at hon; rw [f1]; exact hI.e.hc_off e0 he0 hon g hg
+  · apply hI.r.mono
+    · intro e he
+      exact ⟨probeEp st.cancels u ok e, List.mem_map.2 ⟨e, he, rfl⟩, (probeEp_fields ..).1, (probeEp_fields ..).2.1⟩
+    · exact fun _ h => h
+
+theorem step_inv (st : State) (op : Op) (hI : Inv st) : Inv (step st op) := by
+  cases op with
+  | apply sp => exact applySpec_inv st sp hI
+  | delete n => exact deleteSpec_inv st n hI
+  | reqStart r h => exact reqStart_inv st r h hI
+  | reqPick r c => exact reqPick_inv st r c hI
+  | reqFinish r => exact reqFinish_inv st r hI
+  | health u ok => exact health_inv st u ok hI
+
+theorem run_inv (ops : List Op) (st : State) (hI : Inv st) : Inv (run ops st) :=
+  foldl_inv Inv step (fun s op h => step_inv s op h) ops st hI
+
+
+/-! ## along histories: cancelled stays cancelled, endpoint objects persist, removed stays removed -/
+
+theorem step_cancels_mono (st : State) (op : Op) (hI : Inv st) : ∀ s, s ∈ st.cancels → s ∈ (step st op).cancels := by
+  intro s hs
+  cases op with
+  | apply sp =>
+    show s ∈ (applySpec st sp).cancels
+    rcases applySpec_eps_cancels st sp hI.n with h | ⟨s1, o, _, h2, _, _, _, _, _, _, h7, _⟩
+    · rw [h]; exact hs
+    · rw [h7]; exact syncEndpoints_sub s1 o sp.servers s (by rw [h2]; exact hs)
+  | delete n => exact (deleteSpec_frame st n).2.2.2.2 s hs
+  | reqStart r h =>
+    show s ∈ (reqStart st r h).cancels
+    unfold reqStart; split
+    · exact hs
+    · split <;> exact hs
+  | reqPick r c =>
+    show s ∈ (reqPick st r c).cancels
+    unfold reqPick; split
+    · split <;> exact hs
+    · exact hs
+  | reqFinish r =>
+    show s ∈ (reqFinish st r).cancels
+    unfold reqFinish; split
+    · exact List.mem_cons_of_mem _ hs
+    · exact hs
+  | health u ok => exact hs
+
+theorem step_ep_fwd (st : State) (op : Op) (hI : Inv st) : ∀ e, e ∈ st.eps →
+    ∃ e', e' ∈ (step st op).eps ∧ e'.id = e.id ∧ e'.owner = e.owner ∧ e'.url = e.url ∧ (e.inMap = false → e'.inMap = false) := by
+  intro e he
+  cases op with
+  | apply sp =>
+    show ∃ e', e' ∈ (applySpec st sp).eps ∧ _
+    rcases applySpec_eps_cancels st sp hI.n with h | ⟨s1, o, h1, _, _, _, _, _, _, h6, _⟩
+    · rw [h]; exact ⟨e, he, rfl, rfl, rfl, fun h => h⟩
+    · rw [h6]
+      obtain ⟨e', a, b, c, d, _, f⟩ := syncEndpoints_fwd s1 o sp.servers e (by rw [h1]; exact he)
+      exact ⟨e', a, b, c, d, fun hi => by rw [f, hi]; rfl⟩
+  | delete n =>
+    show ∃ e', e' ∈ (deleteSpec st n).eps ∧ _
+    rw [(deleteSpec_frame st n).2.1]; exact ⟨e, he, rfl, rfl, rfl, fun h => h⟩
+  | reqStart r h =>
+    show ∃ e', e' ∈ (reqStart st r h).eps ∧ _
+    have : (reqStart st r h).eps = st.eps := by
+      unfold reqStart; split
+      · rfl
+      · split <;> rfl
+    rw [this]; exact ⟨e, he, rfl, rfl, rfl, fun h => h⟩
+  | reqPick r c =>
+    show ∃ e', e' ∈ (reqPick st r c).eps ∧ _
+    have : (reqPick st r c).eps = st.eps := by
+      unfold reqPick; split
+      · split <;> rfl
+      · rfl
+    rw [this]; exact ⟨e, he, rfl, rfl, rfl, fun h => h⟩
+  | reqFinish r =>
+    show ∃ e', e' ∈ (reqFinish st r).eps ∧ _
+    have : (reqFinish st r).eps = st.eps := by
+      unfold reqFinish; split <;> rfl
+    rw [this]; exact ⟨e, he, rfl, rfl, rfl, fun h => h⟩
+  | health u ok =>
+    show ∃ e', e' ∈ (health st u ok).eps ∧ _
+    rw [health_eq]
+    obtain ⟨f1, f2, f3, f4, _⟩ := probeEp_fields st.cancels u ok e
+    exact ⟨probeEp st.cancels u ok e, List.mem_map.2 ⟨e, he, rfl⟩, f1, f2, f3, fun h => by rw [f4]; exact h⟩
+
+theorem run_cons (op : Op) (ops : List Op) (st : State) : run (op :: ops) st = run ops (step st op) := rfl
+
+theorem run_cancels_mono (ops : List Op) : ∀ (st : State), Inv st → ∀ s, s ∈ st.cancels → s ∈ (run ops st).cancels := by
+  induction ops with
+  | nil => intro st _ s hs; exact hs
+  | cons op ops ih =>
+    intro st hI s hs
+    rw [run_cons]
+    exact ih _ (step_inv st op hI) s (step_cancels_mono st op hI s hs)
+
+theorem run_ep_fwd (ops : List Op) : ∀ (st : State), Inv st → ∀ e, e ∈ st.eps →
+    ∃ e', e' ∈ (run ops st).eps ∧ e'.id = e.id ∧ e'.owner = e.owner ∧ e'.url = e.url ∧ (e.inMap = false → e'.inMap = false) := by
+  induction ops with
+  | nil => intro st _ e he; exact ⟨e, he, rfl, rfl, rfl, fun h => h⟩
+  | cons op ops ih =>
+    intro st hI e he
+    rw [run_cons]
+    obtain ⟨e1, a1, b1, c1, d1, f1⟩ := step_ep_fwd st op hI e he
+    obtain ⟨e2, a2, b2, c2, d2, f2⟩ := ih _ (step_inv st op hI) e1 a1
+    exact ⟨e2, a2, b2.trans b1, c2.trans c1, d2.trans d1, fun h => f2 (f1 h)⟩
+
+/-! ## deleting an existing cluster -/
+
+theorem deleteSpec_existing (st : State) (name : Str) (hN : InvN st.next st.heap st.names st.cancels)
+    {o : Nat} {c : Cluster} (ho : st.names (lower name) = some o) (hc : st.heap o = some c) (hcn : c.name = lower name) :
+    (∀ k, (deleteSpec st name).names k ≠ some o) ∧ Sid.cl o ∈ (deleteSpec st name).cancels ∧
+    (∀ x, x ∈ (deleteSpec st name).cancels → x ∈ st.cancels ∨ x = Sid.cl o) ∧
+    (∀ k o2, o2 ≠ o → ((deleteSpec st name).names k = some o2 ↔ st.names k = some o2)) ∧
+    (∀ k o2, (deleteSpec st name).names k = some o2 → st.names k = some o2) := by
+  unfold deleteSpec
+  rcases deleteFor_cases st (lower name) with h | ⟨o', c', ho', hc', h⟩
+  · exfalso
+    unfold deleteForServerNames Model.Lifecycle.get at h
+    rw [lower_idem, ho] at h
+    simp only [hc] at h
+    have R := delFold_rel (lower name) c.serverNames st
+    rw [h] at R
+    have := (R.kill (lower name) o ho (by rw [nameOf_some hc, hcn]) ⟨c.name, List.mem_cons_self .., by rw [hcn, lower_idem]⟩).1
+    rw [ho] at this; cases this
+  · rw [lower_idem, ho] at ho'; cases ho'
+    rw [hc] at hc'; cases hc'
+    rw [h]
+    have R := delFold_rel (lower name) c.serverNames st
+    generalize c.serverNames.foldl (delStep (lower name)) st = f at R
+    have hname : nameOf st o = some (lower name) := by rw [nameOf_some hc, hcn]
+    refine ⟨?_, ?_, ?_, ?_, R.shrink⟩
+    · intro k hk
+      have hk0 := R.shrink k o hk
+      obtain ⟨_, _, hkin, hlk⟩ := victim_is_owner hN ho hc hk0 hname
+      have := (R.kill k o hk0 hname ⟨k, hkin, hlk⟩).1
+      rw [hk] at this; cases this
+    · exact (R.kill (lower name) o ho hname ⟨c.name, List.mem_cons_self .., by rw [hcn, lower_idem]⟩).2
+    · intro x hx
+      rcases R.newc x hx with h1 | ⟨k, o2, hk, hn, _, heq⟩
+      · exact Or.inl h1
+      · right; rw [heq, (victim_is_owner hN ho hc hk hn).1]
+    · intro k o2 hne
+      constructor
+      · exact R.shrink k o2
+      · intro hk
+        rcases R.keep k o2 hk with h1 | ⟨_, hn, _⟩
+        · exact h1
+        · exact absurd (victim_is_owner hN ho hc hk hn).1 hne
+
+/-! ## an update that does not touch the server list touches no scope -/
+
+theorem ensureHC_noop (e : Ep) (h : e.hcOn = !e.disabled) : ensureHC e = ([], e) := by
+  obtain ⟨id, owner, url, inMap, d, healthy, on, gen⟩ := e
+  simp only at h
+  subst h
+  cases d <;> rfl
+
+theorem map_id_of_forall {α : Type} (f : α → α) (l : List α) (h : ∀ a, a ∈ l → f a = a) : l.map f = l := by
+  induction l with
+  | nil => rfl
+  | cons x xs ih =>
+    simp only [List.map_cons]
+    rw [h x (List.mem_cons_self ..), ih (fun a ha => h a (List.mem_cons_of_mem _ ha))]
+
+theorem flatMap_nil_of_forall {α β : Type} (f : α → List β) (l : List α) (h : ∀ a, a ∈ l → f a = []) : l.flatMap f = [] := by
+  induction l with
+  | nil => rfl
+  | cons x xs ih =>
+    simp only [List.flatMap_cons]
+    rw [h x (List.mem_cons_self ..), ih (fun a ha => h a (List.mem_cons_of_mem _ ha))]
+    rfl
+
+/-- the server list names exactly the endpoints the cluster has, with the flags they have -/
+def sameServers (st : State) (o : Nat) (servers : List (Str × Bool)) : Prop :=
+  (∀ e, e ∈ st.eps → e.owner = o → e.inMap = true → e.url ∈ servers.map (·.1) ∧ disabledOf servers e.url = e.disabled) ∧
+  (∀ u, u ∈ servers.map (·.1) → ∃ e, e ∈ st.eps ∧ e.owner = o ∧ e.inMap = true ∧ e.url = u)
+
+theorem addOrUpdate_noop (st : State) (o : Nat) (u : Str) (dis : Bool)
+    (hs : ∀ e, e ∈ st.eps → e.hcOn = !e.disabled)
+    (hex : ∃ e, e ∈ st.eps ∧ e.owner = o ∧ e.inMap = true ∧ e.url = u)
+    (hall : ∀ e, e ∈ st.eps → e.owner = o → e.inMap = true → e.url = u → e.disabled = dis) :
+    addOrUpdate st o u dis = st := by
+  unfold addOrUpdate
+  have hany : st.eps.any (epMatches o u) = true := by
+    obtain ⟨e, he, h1, h2, h3⟩ := hex
+    exact List.any_eq_true.2 ⟨e, he, (epMatches_iff o u e).2 ⟨h1, h2, h3⟩⟩
+  simp only [hany, if_true]
+  have h1 : st.eps.map (updEp o u dis) = st.eps := by
+    apply map_id_of_forall
+    intro e he
+    unfold updEp
+    split
+    · rename_i hm
+      obtain ⟨a, b, c⟩ := (epMatches_iff o u e).1 hm
+      have hd := hall e he a b c
+      have : ({ e with disabled := dis } : Ep) = e := by rw [← hd]
+      rw [this, ensureHC_noop e (hs e he)]
+    · rfl
+  have h2 : st.eps.flatMap (updCancels o u dis) = [] := by
+    apply flatMap_nil_of_forall
+    intro e he
+    unfold updCancels
+    split
+    · rename_i hm
+      obtain ⟨a, b, c⟩ := (epMatches_iff o u e).1 hm
+      have hd := hall e he a b c
+      have : ({ e with disabled := dis } : Ep) = e := by rw [← hd]
+      rw [this, ensureHC_noop e (hs e he)]
+    · rfl
+  rw [h1, h2]
+  rfl
+
+theorem syncEndpoints_noop (st : State) (o : Nat) (servers : List (Str × Bool))
+    (hs : ∀ e, e ∈ st.eps → e.hcOn = !e.disabled) (hsame : sameServers st o servers) :
+    syncEndpoints st o servers = st := by
+  rw [syncEndpoints_eq]
+  have hd : dropPhase st o (servers.map (·.1)) = st := by
+    unfold dropPhase
+    have h1 : st.eps.map (dropEp o (servers.map (·.1))) = st.eps := by
+      apply map_id_of_forall
+      intro e he
+      unfold dropEp
+      split
+      · rename_i hdp
+        obtain ⟨a, b, c⟩ := (isDropped_iff _ _ e).1 hdp
+        exact absurd (hsame.1 e he a b).1 c
+      · rfl
+    have h2 : st.eps.filter (isDropped o (servers.map (·.1))) = [] := by
+      rw [List.filter_eq_nil_iff]
+      intro e he hdp
+      obtain ⟨a, b, c⟩ := (isDropped_iff _ _ e).1 hdp
+      exact c (hsame.1 e he a b).1
+    rw [h1, h2]
+    rfl
+  rw [hd]
+  have : ∀ (l : List (Str × Bool)), (∀ sv, sv ∈ l → sv.1 ∈ servers.map (·.1)) →
+      l.foldl (fun s sv => addOrUpdate s o sv.1 (disabledOf servers sv.1)) st = st := by
+    intro l
+    induction l with
+    | nil => intro _; rfl
+    | cons sv svs ih =>
+      intro hl
+      simp only [List.foldl_cons]
+      rw [addOrUpdate_noop st o sv.1 _ hs (hsame.2 _ (hl sv (List.mem_cons_self ..)))]
+      · exact ih (fun x hx => hl x (List.mem_cons_of_mem _ hx))
+      · intro e he a b c
+        rw [← c]; exact ((hsame.1 e he a b).2).symm
+  exact this servers (fun sv hsv => List.mem_map.2 ⟨sv, hsv, rfl⟩)
 
 end KG.Lemmas.Lifecycle
